@@ -65,6 +65,7 @@ class RawBinaryParser {
     py::dict arrays( std::vector<std::string> sub_detectors );
 
   private:
+    void require( size_t n ) const; // throws unless n more words are available
     uint32_t read();
     std::vector<uint32_t> read( size_t n );
     void read( size_t n, uint32_t* data );
